@@ -13,6 +13,7 @@ CONSTANTS
   Weights <- TimeOnly
   Surs = {0}
   CUs <- BaseCU
+  Rts <- NoRt
   NoDst = FALSE
   OkSubsets = FALSE
   NeedConsistent = FALSE
